@@ -12,7 +12,7 @@ files = []
 t0=time.time()
 for i in range(nsh):
     t = os.path.join(d, "g%d.ndjson" % i); s = os.path.join(d, "g%d.scripts" % i)
-    vlib.pvh(bins["dev"], [gen, "--tier", tier, "--seed", 1, "--shard", i, "--shards", nsh, "--out", t, "--scripts", s] + extra)
+    vlib.pvh(bins["dev"], [gen, "--tier", tier, "--seed", int(os.environ.get("SEED", "1")), "--shard", i, "--shards", nsh, "--out", t, "--scripts", s] + extra)
     if os.path.getsize(t) > 20: files.append(t)
 print("generated in %.1fs, %d lines" % (time.time()-t0, sum(sum(1 for _ in open(f)) for f in files)))
 t0=time.time()
